@@ -54,6 +54,8 @@ def gates(c, tier):
             missing.append(f"client:BEFORE_OPEN:{op}")
     if missing:
         out.append("state x op cells never exercised: " + ",".join(missing[:10]))
+    if c.get("long-lived-sessions", 0) == 0:
+        out.append("no long-lived session (ids > 256)")
     if c.get("exhaustive-histories", 0) == 0:
         out.append("bounded-exhaustive part did not run")
     return out
@@ -93,7 +95,10 @@ def run_shard(ctx: Ctx, acc: Acc):
         length = r.choice([5, 10, 20, 40, 60])
         acc.case()
         bad = None
-        for _ in range(length):
+        if i % 64 == 5:  # a long-lived connection: message ids beyond 256 before the history proper starts
+            bad = H.long_lived_prelude(pair, 260 + (i % 7)) or None
+            acc.count("long-lived-sessions")
+        for _ in range(length if not bad else 0):
             side, action = H.random_step(r, pair)
             vio = pair.do(side, action)
             if vio:
